@@ -27,6 +27,7 @@ func main() {
 	dump := flag.String("dump", "", "debug: templates|jsfree")
 	mutant := flag.String("mutant", "", "self-test: apply mutant <id> through an in-memory overlay")
 	noEvidence := flag.Bool("no-evidence", false, "do not write evidence/replay files (self-test)")
+	listObs := flag.Bool("list", false, "debug: print every obligation (rule, key, verdict, site)")
 	listMutants := flag.Bool("list-mutants", false, "list mutant ids for -property")
 	var overlays multiFlag
 	flag.Var(&overlays, "overlay", "debug: <repo-relative file>=<replacement file>; analysed instead of the file on disk (repeatable)")
@@ -46,6 +47,7 @@ func main() {
 	}
 
 	c := ctx.New(*repo, *verif, *tier)
+	rules.LoadSeedMutants(c.Verif)
 	for _, o := range overlays {
 		i := strings.Index(o, "=")
 		if i < 0 {
@@ -137,6 +139,11 @@ func main() {
 		}
 	}
 	runRules()
+	if *listObs {
+		for _, o := range r.Obs {
+			fmt.Printf("%s\t%s\t%s\t%s\n", o.Rule, o.Key, o.Verdict, o.Site)
+		}
+	}
 
 	if *replay != "" {
 		found := false
